@@ -627,7 +627,26 @@ func swap(in []string, a, b string) []string {
 // constant subtracted from the straight's top rank.
 func scoreConstants(fn *ssa.Function) (radix, calib, straightSub int64, ok bool, why string) {
 	radix, calib, straightSub = -1, -1, -1
-	for _, b := range fn.Blocks {
+	// the score may be split over unexported helpers (one per kind of hand): read them all
+	fns := []*ssa.Function{fn}
+	seenF := map[*ssa.Function]bool{fn: true}
+	for i := 0; i < len(fns) && i < 16; i++ {
+		for _, b := range fns[i].Blocks {
+			for _, in := range b.Instrs {
+				if call, ok := in.(*ssa.Call); ok {
+					if f := call.Call.StaticCallee(); f != nil && !seenF[f] && privateHelper(fn, f) {
+						seenF[f] = true
+						fns = append(fns, f)
+					}
+				}
+			}
+		}
+	}
+	var blocks []*ssa.BasicBlock
+	for _, f := range fns {
+		blocks = append(blocks, f.Blocks...)
+	}
+	for _, b := range blocks {
 		for _, in := range b.Instrs {
 			switch x := in.(type) {
 			case *ssa.Call:
@@ -711,7 +730,11 @@ func runC03Ladder(c *Ctx) {
 	c.touch(fnKey(fn))
 	s := newSumm(p, 0)
 	s.EngineAliases = false
-	s.HelperInline = func(f *ssa.Function) bool { return privateHelper(fn, f) && len(findLoops(f)) == 0 }
+	// helpers that compute something are analysed in place; pattern predicates (bool results) stay
+	// opaque atoms, whatever they are built from
+	s.HelperInline = func(f *ssa.Function) bool {
+		return privateHelper(fn, f) && len(findLoops(f)) == 0 && !(f.Signature.Results().Len() == 1 && isBoolType(f.Signature.Results().At(0).Type()))
+	}
 	paths, cut := s.Function(fn)
 	if cut != "" {
 		c.undecided("ladder-priority", "combination.CalculatePower", p.FnPos(fn), "summary cut: "+cut)
@@ -745,6 +768,15 @@ func runC03Ladder(c *Ctx) {
 				name := l[i+len("combination.is"):]
 				if j := strings.Index(name, "("); j > 0 {
 					name = name[:j]
+				}
+				isCat := false
+				for _, cn := range catByVal {
+					if cn == name {
+						isCat = true
+					}
+				}
+				if !isCat {
+					continue // a predicate that does not name a category decides nothing here
 				}
 				if cd.V.Neg {
 					falseP[name] = true
